@@ -2,6 +2,7 @@
 #include <utility>
 #include <string>
 #include <stdexcept>
+#include <limits>
 
 namespace OP2Utility::Archive
 {
@@ -89,6 +90,11 @@ namespace OP2Utility::Archive
 	void AdaptiveHuffmanTree::UpdateCodeCount(NodeData code)
 	{
 		VerifyNodeDataInBounds(code);
+
+		// The root holds the total count. Refuse the update that would wrap it (before changing anything)
+		if (subtreeCount[rootNodeIndex] == std::numeric_limits<NodeType>::max()) {
+			throw std::runtime_error("AdaptiveHuffmanTree can not count any more codes");
+		}
 
 		// Get the index of the node containing this code
 		NodeIndex curNodeIndex = parentIndex[code + nodeCount];
